@@ -294,3 +294,14 @@ Proof.
 Qed.
 
 End P.
+
+(* non-vacuity: pq.Q(1, 0) | pq.NumberState(occupation_numbers=(2,), coefficient=-3) *)
+Definition example_tokens_statement : Prop :=
+  instr_tokens Z Z.abs (fun z => (z <? 0)%Z)
+    (mkCI Z "NumberState" [1%Z; 0%Z]
+       [("occupation_numbers"%string, VSeq Z Paren [VInt Z 2%Z]); ("coefficient"%string, VInt Z (-3)%Z)] false)
+  = Some [TPq Z; TDot Z; TQ Z; TLP Z; TInt Z 1%Z; TComma Z; TInt Z 0%Z; TRP Z; TPipe Z; TPq Z; TDot Z;
+          TIdent Z "NumberState"; TLP Z; TIdent Z "occupation_numbers"; TEq Z; TLP Z; TInt Z 2%Z; TComma Z; TRP Z;
+          TComma Z; TIdent Z "coefficient"; TEq Z; TMinus Z; TInt Z 3%Z; TRP Z].
+Lemma example_tokens : example_tokens_statement.
+Proof. reflexivity. Qed.
